@@ -48,6 +48,9 @@ def _expand_branch(mol_graph, current, anchor, recipe):
         for _ in range(0, n_mon):
             mol_graph.add_node(current, **attributes)
             mol_graph.add_edge(prev_node, current, order=order)
+            # the bond order refers to the bond to the previous node; further
+            # copies of a multiplied node are connected by single bonds
+            order = 1
 
             prev_node = current
             current += 1
